@@ -181,6 +181,13 @@ func toMap(in any, tag string) (map[string]any, error) {
 				if t[0] == "recorded" && val == uint64(0) {
 					continue
 				}
+				// json also omits the zero internal id and the empty id of a nested entity
+				if t[0] == "internalId" && val == uint64(0) {
+					continue
+				}
+				if t[0] == "id" && val == "" {
+					continue
+				}
 			}
 			if t[0] == "refs" {
 				refs := val.(map[string]interface{})
